@@ -23,6 +23,7 @@ import (
 type CopyCase struct {
 	Case
 	DstCodec string `json:"dstcodec"` // "" = same options as the source (verbatim copy), else another codec
+	Via      string `json:"via,omitempty"` // "" WriteRowGroup | "CopyRows" | "ReadRowsFrom": the rows travel through a row reader
 }
 
 func genCopy(t *rapid.T) CopyCase {
@@ -31,6 +32,7 @@ func genCopy(t *rapid.T) CopyCase {
 	c.Ops = gen.WriteOps(t, c.Plan.NumRows())
 	c.Opts.Pool = ""
 	c.DstCodec = []string{"", "", "zstd", "none"}[rapid.IntRange(0, 3).Draw(t, "dstcodec")]
+	c.Via = []string{"", "", "CopyRows", "ReadRowsFrom"}[rapid.IntRange(0, 3).Draw(t, "via")]
 	return c
 }
 
@@ -55,9 +57,25 @@ func copyFrom(c CopyCase, cols []ref.Column, src interface {
 	var buf bytes.Buffer
 	w := parquet.NewWriter(&buf, append([]parquet.WriterOption{pq.BuildSchema(&c.Schema)}, pq.Options(dst, cols, "")...)...)
 	var werr error
-	for _, rg := range f.RowGroups() {
-		if _, werr = w.WriteRowGroup(rg); werr != nil {
-			break
+	switch c.Via {
+	case "CopyRows":
+		r := parquet.NewReader(f)
+		_, werr = parquet.CopyRows(w, r)
+		r.Close()
+	case "ReadRowsFrom":
+		for _, rg := range f.RowGroups() {
+			rows := rg.Rows()
+			_, werr = w.ReadRowsFrom(rows)
+			rows.Close()
+			if werr != nil {
+				break
+			}
+		}
+	default:
+		for _, rg := range f.RowGroups() {
+			if _, werr = w.WriteRowGroup(rg); werr != nil {
+				break
+			}
 		}
 	}
 	cerr := w.Close()
@@ -80,7 +98,7 @@ func runCopy(c CopyCase, o *kit.Obs) *kit.Failure {
 		return kit.Failf("harness/split", "%v", err)
 	}
 	size := int64(len(data))
-	feat := fmt.Sprintf("{copy,dst=%s}", map[bool]string{true: "same-config", false: "other-codec"}[c.DstCodec == ""])
+	feat := fmt.Sprintf("{copy,dst=%s,via=%s}", map[bool]string{true: "same-config", false: "other-codec"}[c.DstCodec == ""], c.Via)
 	check := func(what string, out []byte, err error, p any) *kit.Failure {
 		if p != nil {
 			return kit.Failf("c14/copy/panic"+feat, "%s: panic: %v", what, p)
@@ -109,9 +127,10 @@ func runCopy(c CopyCase, o *kit.Obs) *kit.Failure {
 	}
 	ncalls := base.calls
 	for i := 0; i < ncalls; i++ {
-		for _, short := range []bool{false, true} {
-			out, err, p := copyFrom(c, cols, &faultyReader{data: data, fail: i, short: short}, size)
-			if f := check(fmt.Sprintf("source ReadAt call %d of %d failing (short=%v)", i, ncalls, short), out, err, p); f != nil {
+		for mode := 0; mode < 6; mode++ {
+			short := mode%2 == 1
+			out, err, p := copyFrom(c, cols, &faultyReader{data: data, fail: i, short: short, kind: mode / 2}, size)
+			if f := check(fmt.Sprintf("source ReadAt call %d of %d failing (short=%v kind=%d)", i, ncalls, short, mode/2), out, err, p); f != nil {
 				return f
 			}
 			if err == nil {
@@ -130,6 +149,7 @@ func runCopy(c CopyCase, o *kit.Obs) *kit.Failure {
 		o.Metric("truncated_sources_tried", 1)
 	}
 	o.Class(map[bool]string{true: "verbatim-copy-config", false: "re-encode-config"}[c.DstCodec == ""])
+	o.Class("via-" + c.Via)
 	if ncalls >= 3 {
 		o.NonTrivial()
 	}
